@@ -252,6 +252,32 @@ impl C03 {
                 mon.facet("instance-out-of-an-SDK-pipeline");
             }
         }
+        // one case in six: a genuine one-hot group — binaries b_1..b_k, the constraint sum b_i - 1 = 0 and the
+        // matching entry in constraint_hints (and generic hints on some of the others); hints are advice to
+        // solvers, the states below satisfy the group or not as they come
+        if rng.chance(1, 6) {
+            let mut bins: Vec<u64> = inst.decision_variables.iter().filter(|v| v.kind == KIND_BINARY).map(|v| v.id).collect();
+            let mut next = inst.decision_variables.iter().map(|v| v.id).max().map_or(0, |m| m.wrapping_add(1));
+            while bins.len() < 3 && next < u64::MAX - 8 {
+                inst.decision_variables.push(dvar(next, KIND_BINARY, if rng.bool() { Some((0.0, 1.0)) } else { None }));
+                bins.push(next);
+                next += 1;
+            }
+            let k = 2 + rng.usize_below(bins.len().min(4) - 1);
+            rng.shuffle(&mut bins);
+            let members: Vec<u64> = bins.iter().take(k).copied().collect();
+            let cid = inst.constraints.iter().map(|c| c.id).chain(inst.removed_constraints.iter().filter_map(|r| r.constraint.as_ref().map(|c| c.id))).max().map_or(0, |m| m.wrapping_add(1));
+            inst.constraints.push(constraint(cid, EQ_ZERO, Some(f_linear(linear(members.iter().map(|i| (*i, 1.0)).collect(), -1.0)))));
+            let mut h = inst.constraint_hints.take().unwrap_or_default();
+            let mut o = v1::OneHot::default();
+            o.constraint_id = cid;
+            o.decision_variables = members;
+            h.one_hot_constraints.push(o);
+            inst.constraint_hints = Some(h);
+            mon.facet("instance-with-a-one-hot-group-and-hint");
+        } else if rng.chance(1, 6) {
+            inst.constraint_hints = gen_hints(rng, &inst);
+        }
         let hidden = add_fixed_and_dependent(rng, &mut inst, regime);
         let give: BTreeSet<u64> = inst.decision_variables.iter().map(|v| v.id).filter(|i| !hidden.contains(i)).collect();
         let all = sorted_state(&gen_state_in_bounds(rng, &inst, Some(&give), regime));
